@@ -875,6 +875,31 @@ func execCtl(prop string, raw json.RawMessage, wantLog bool) (out Outcome) {
 				}
 				r.out.Stat("data_plane_probes", 1)
 			}
+			// whatever the membership changes did to the replica sets: what was stored is stored in
+			// the partition that owns its id
+			s.runFor(time.Second)
+			var order []uuid.UUID
+			for _, n := range r.aliveNodes() {
+				if d := r.datasetOn(n, info.id); d != nil && len(d.Partitions) == info.p {
+					for _, p := range d.Partitions {
+						order = append(order, p.Id)
+					}
+					break
+				}
+			}
+			if len(order) == info.p && info.p > 0 {
+				for pid, reps := range r.replicaDumps(info.id) {
+					for _, d := range reps {
+						for _, v := range d.Vertices {
+							if want := order[ownerOf(v.Id, info.p)]; want != pid {
+								r.viol("id-stored-in-a-partition-that-does-not-own-it", "dataset#%d: id %s is stored in partition %s; it belongs to partition #%d = %s", slot, v.Id, shortG(pid), ownerOf(v.Id, info.p), shortG(want))
+								return
+							}
+							r.out.Stat("owners_checked_with_independent_arithmetic", 1)
+						}
+					}
+				}
+			}
 		}
 		r.checkNoDeath()
 	})
